@@ -437,6 +437,32 @@ type streamingResponseWriter struct {
 	wroteHeader bool
 	bodyWriter  *io.PipeWriter
 	bodyReader  *io.PipeReader
+
+	// finalTrailer holds the trailers of the response. It is set by `Close`
+	// before the body pipe is closed, and only read after the body hits EOF.
+	finalTrailer http.Header
+}
+
+// streamedBody is the body of a streamed response.
+//
+// The streamed response is consumed in a different goroutine from the one that
+// writes it, so the two must not share any maps. To that end, the trailers
+// computed by the writing side are copied into the response's own trailer map
+// by the reading side, at the point where it sees the end of the body.
+type streamedBody struct {
+	*io.PipeReader
+	w       *streamingResponseWriter
+	trailer http.Header
+}
+
+func (b *streamedBody) Read(p []byte) (int, error) {
+	n, err := b.PipeReader.Read(p)
+	if err == io.EOF {
+		for k, vs := range b.w.finalTrailer {
+			b.trailer[k] = vs
+		}
+	}
+	return n, err
 }
 
 func (w *streamingResponseWriter) Header() http.Header {
@@ -488,7 +514,12 @@ func (w *streamingResponseWriter) WriteHeader(status int) {
 			header.Add(k, v)
 		}
 	}
-	w.header = header
+
+	// The response gets its own trailer map, which is filled in by its body.
+	trailer := make(http.Header)
+	for k := range w.trailer {
+		trailer[k] = []string{}
+	}
 
 	// Take the protocol version information for the response from the corresponding request.
 	proto := "HTTP/1.1"
@@ -505,9 +536,9 @@ func (w *streamingResponseWriter) WriteHeader(status int) {
 		ProtoMinor: protoMinor,
 		StatusCode: status,
 		Status:     http.StatusText(status),
-		Header:     w.header,
-		Body:       w.bodyReader,
-		Trailer:    w.trailer,
+		Header:     header,
+		Body:       &streamedBody{PipeReader: w.bodyReader, w: w, trailer: trailer},
+		Trailer:    trailer,
 	}
 	select {
 	case w.respChan <- resp:
@@ -527,12 +558,14 @@ func (w *streamingResponseWriter) Close() error {
 	if !w.wroteHeader {
 		w.WriteHeader(http.StatusOK)
 	}
+	trailer := make(http.Header)
 	for k, _ := range w.trailer {
+		trailer[k] = []string{}
 		for _, v := range w.Header().Values(k) {
 			// The `Values` method does not return a copy, so we manually
 			// add each value one at a time to ensure that subsequent changes
 			// to the header do not affect the trailers map.
-			w.trailer.Add(k, v)
+			trailer.Add(k, v)
 		}
 	}
 	for k, vs := range w.Header() {
@@ -545,9 +578,10 @@ func (w *streamingResponseWriter) Close() error {
 			continue
 		}
 		for _, v := range vs {
-			w.trailer.Add(k, v)
+			trailer.Add(k, v)
 		}
 	}
+	w.finalTrailer = trailer
 	return w.bodyWriter.Close()
 }
 
